@@ -233,8 +233,8 @@ func equals(t types.Type, x, y value) bool {
 		return x == y.(string)
 	case *value:
 		return x == y.(*value)
-	case chan value:
-		return x == y.(chan value)
+	case *vchan:
+		return x == y.(*vchan)
 	case structure:
 		return x.eq(t, y)
 	case array:
@@ -294,7 +294,7 @@ func hash(outer, t types.Type, x value) int {
 		return hashString(x)
 	case *value:
 		return int(uintptr(unsafe.Pointer(x)))
-	case chan value:
+	case *vchan:
 		return 0
 	case structure:
 		return x.hash(t)
@@ -379,8 +379,8 @@ func writeValue(buf *bytes.Buffer, v value) {
 		}
 		buf.WriteString("]")
 
-	case chan value:
-		fmt.Fprintf(buf, "%v", v) // (an address)
+	case *vchan:
+		fmt.Fprintf(buf, "%p", v) // (an address)
 
 	case *value:
 		if v == nil {
